@@ -65,7 +65,7 @@ static void* do_alloc(void* opaque, size_t size) {
     b->magic = A_MAGIC; b->pad = (uint32_t)pad; b->size = size; b->index = A.calls; b->raw = raw; b->canary = canary_of(b);
     b->prev = NULL; b->next = A.live; if (A.live) A.live->prev = b; A.live = b;
     memset(user + size, 0xA5, TRL);
-    memset(user, 0xCD, size < 64 ? size : 64);   /* allocator returns non-zero memory: uninitialised use shows */
+    memset(user, 0xCD, size);   /* allocator returns non-zero memory, the same in every process: uninitialised use shows and replays */
     A.live_blocks++; A.live_bytes += size; if (A.live_bytes > A.peak_bytes) A.peak_bytes = A.live_bytes;
     poison(raw, pad + HDR); poison(user + size, TRL);
     return user;
